@@ -6,7 +6,8 @@
 //@harness name=end_sets_pitch tier=quick label=proved props=C07
 //@harness name=rnd_range_and_lcg tier=quick label=proved props=C07 timeout=600
 //@harness name=mseq_step tier=quick label=proved props=C07
-//@harness name=new_is_fixed_seed tier=quick label=bounded(nlpf<=3) props=C07,C01
+//@harness name=new_is_fixed_seed tier=quick label=bounded(nlpf<=3) props=C07
+//@harness name=new_ring_has_nlpf_slots tier=quick label=bounded(nlpf<=3) props=C01,C07
 //@harness name=ring_buffer_step_asymmetric_lpf tier=quick label=bounded(nlpf=3,concrete-asymmetric-filter) props=C07 timeout=600
 //@harness name=ring_buffer_step_idx0 tier=thorough label=bounded(nlpf=3) props=C07 timeout=600
 //@harness name=ring_buffer_step_idx2 tier=thorough label=bounded(nlpf=3) props=C07 timeout=600
@@ -128,8 +129,7 @@ fn mseq_step() {
     assert!((m.x >> 31) == (b0 ^ b28));
 }
 
-/// every vocoder starts from the same noise state (fixed seed) and a zeroed ring buffer of exactly nlpf slots
-/// (C01: a two-stream voice has nlpf == 0 and must take the no-low-pass path of `get`, which never indexes lpf)
+/// every vocoder starts from the same noise state (fixed seed) and a zeroed ring buffer
 #[kani::proof]
 #[kani::unwind(5)]
 fn new_is_fixed_seed() {
@@ -188,3 +188,17 @@ fn ring_buffer_step_idx2() { ring_buffer_step(2); }
 #[kani::unwind(5)]
 #[kani::stub(f64::sqrt, uf_sqrt)]
 fn ring_buffer_step_asymmetric_lpf() { ring_buffer_step_with(1, [0.25, 0.5, 0.125]); }
+
+/// the ring buffer has exactly nlpf slots (C01: a two-stream voice has nlpf == 0 and must take the no-low-pass path
+/// of `get`, which never indexes the empty low-pass row; with more slots than taps `voiced_frame` indexes past the row).
+/// Only the size is asserted here, so that a change to the noise seed is not reported under C01.
+#[kani::proof]
+#[kani::unwind(5)]
+fn new_ring_has_nlpf_slots() {
+    let n: usize = kani::any();
+    kani::assume(n <= 3);
+    let e = Excitation::new(n);
+    assert!(e.ring_buffer.len() == n);
+    kani::cover!(n == 0);
+    kani::cover!(n == 3);
+}
